@@ -154,13 +154,13 @@ def run_fold(shape):
         return out
 
     for path in eng.explore(body):
-        acc.paths += 1
+        acc.begin(prover, path)
         cexinfo = {"gseed": shape["gseed"]}
         if path.kind == "exc":
             acc.structural("no_exception", False, detail=repr(path.value) + (path.tb or "")[-500:], cex=dict(cexinfo, kind="exception", exc=type(path.value).__name__, model=_model(path)))
             continue
-        if acc.reachable is None:
-            acc.reachable = prover.satisfiable(path.premises) == "sat"
+        if acc.reachable is not True:
+            acc.reach(prover.satisfiable(path.premises))
         R = path.value
         m = None
         shapes_ok = all(tuple(R[p].shape) == (N, N) for p in R)
@@ -325,12 +325,12 @@ def run_assembly(shape):
 
     adj = {(i, j): len(set(regions[i]) & set(regions[j])) >= dim - 1 for i in range(n) for j in range(i + 1, n)}
     for path in eng.explore(body):
-        acc.paths += 1
+        acc.begin(prover, path)
         if path.kind == "exc":
             acc.structural("no_exception", False, detail=repr(path.value) + (path.tb or "")[-500:], cex={"kind": "exception", "exc": type(path.value).__name__})
             continue
-        if acc.reachable is None:
-            acc.reachable = prover.satisfiable(path.premises) == "sat"
+        if acc.reachable is not True:
+            acc.reach(prover.satisfiable(path.premises))
         R = path.value
         pats = {p: (list(R[p].row), list(R[p].col)) for p in R}
         acc.structural("one_pattern_for_three_properties", pats["adjacency"] == pats["border_len"] == pats["center_distances"], detail=str(pats)[:300])
@@ -413,12 +413,12 @@ def run_distance(shape):
     dot = z3.Sum([a * b for a, b in zip(q1, q2)])
     absdot = z3.If(dot >= 0, dot, -dot)
     for path in eng.explore(body):
-        acc.paths += 1
+        acc.begin(prover, path)
         if path.kind == "exc":
             acc.structural("no_exception", False, detail=repr(path.value) + (path.tb or "")[-800:], cex={"kind": "exception", "exc": type(path.value).__name__})
             continue
-        if acc.reachable is None:
-            acc.reachable = prover.satisfiable(path.premises[:4]) == "sat"
+        if acc.reachable is not True:
+            acc.reach(prover.satisfiable(path.premises[:4]))
         vals = [z(x if not isinstance(x, np.ndarray) else x.reshape(-1)[0]) for x in path.value]
         # stage 1: the norms the code computes are 1 (lemma per sqrt variable, from the sqrt axioms and the unit premise only)
         subs, lem = [], []
